@@ -169,9 +169,24 @@ loop:
 				buf := make([]byte, 4<<20)
 				stacks := string(buf[:runtime.Stack(buf, true)])
 				if c17AllBlocked(stacks) {
-					res.Hang = true
-					res.Stacks = stacks
-					break loop
+					// confirm: a deadlock is a state, not a time measurement. Two seconds later the
+					// trace must still be unchanged and every routine still blocked (a goroutine
+					// waiting in a select with a timer that is about to fire is not a deadlock)
+					time.Sleep(2 * time.Second)
+					c17TraceMu.Lock()
+					n2 := len(c17Trace)
+					c17TraceMu.Unlock()
+					stacks2 := string(buf[:runtime.Stack(buf, true)])
+					if n2 == n && c17AllBlocked(stacks2) {
+						select {
+						case o := <-done:
+							res.Ok, res.Class, res.Msg = o.Ok, o.Class, o.Msg
+						default:
+							res.Hang = true
+							res.Stacks = stacks2
+						}
+						break loop
+					}
 				}
 				last = time.Now()
 			}
@@ -897,6 +912,31 @@ func c17Exec(bin string, procs int, src string, yieldSeed uint64, stallS int, de
 	return run
 }
 
+// c17Alone runs f while no other worker of this harness is running (set by runC17 to a version
+// that knows the worker pool; replay runs one worker at a time anyway).
+var c17Alone = func(f func()) { f() }
+
+var c17Retried atomic.Int32
+
+// a verdict that may be the machine's and not slip's: the wall-clock deadline passed, or the
+// worker disappeared without a Go fatal error / panic message (killed from outside, output cut)
+func (r *c17Run) transient() bool {
+	return r.Timeout || strings.HasPrefix(r.Death, "exit-") || r.Death == "worker-output-unreadable"
+}
+
+// c17ExecSettled = c17Exec, but a transient outcome is only believed after the same job was
+// re-run ALONE (no other worker of this harness running) with four times the deadline; what the
+// re-run shows is the outcome. Deadlocks found by the worker itself (every routine blocked, twice)
+// and Go fatal errors / panics are facts about the run, not about the load, and are not re-run.
+func c17ExecSettled(bin string, procs int, src string, yieldSeed uint64, stallS int, deadline time.Duration, race bool) *c17Run {
+	run := c17Exec(bin, procs, src, yieldSeed, stallS, deadline, race)
+	for attempt := 0; attempt < 2 && run.transient(); attempt++ {
+		c17Retried.Add(1)
+		c17Alone(func() { run = c17Exec(bin, procs, src, yieldSeed, stallS, 4*deadline, race) })
+	}
+	return run
+}
+
 func c17ClassifyDeath(stderr string, err error) (string, string) {
 	for _, line := range strings.Split(stderr, "\n") {
 		if strings.HasPrefix(line, "fatal error: ") {
@@ -1557,18 +1597,14 @@ func c17CheckRun(c *lib.Ctx, cs *c17Case, run *c17Run, model map[string]string, 
 		if r.Top == "-" && r.Prev == "-" {
 			continue // no slip frame on either side: not about slip
 		}
-		top := r.Top
-		if top == "-" {
-			top = r.Prev
-		}
-		add("race top="+top, fmt.Sprintf("data race reported by the Go race detector: access in %s, conflicting access in %s", r.Top, r.Prev), "no race report naming slip frames")
+		add(c17RaceSig(cs.Cell, r), fmt.Sprintf("data race reported by the Go race detector: access in %s, conflicting access in %s", r.Top, r.Prev), "no race report naming slip frames")
 	}
 	switch {
 	case run.Timeout:
 		add("hang=deadline", "worker did not finish before the deadline", "program completes")
 		return out
 	case run.Death != "":
-		add(fmt.Sprintf("death=%s frame=%s", run.Death, run.Frame), "worker died: "+c17FirstLines(run.Stderr, 6), "worker exits normally")
+		add(c17DeathSig(cs.Cell, run.Death, run.Frame), fmt.Sprintf("worker died (%s, top slip frame %s): %s", run.Death, run.Frame, c17FirstLines(run.Stderr, 6)), "worker exits normally")
 		return out
 	case run.Res.Hang:
 		add("hang=stalled frame="+c17BlockedFrame(run.Res.Stacks), "no progress: "+c17FirstLines(run.Res.Stacks, 12), "program completes")
@@ -1836,6 +1872,76 @@ func c17CheckRun(c *lib.Ctx, cs *c17Case, run *c17Run, model map[string]string, 
 		}
 	}
 	return out
+}
+
+// ---------------------------------------------------------------------------------------------
+// signatures of the constructs that are LISTED findings. Which fatal-error class and which top
+// frame a run shows for one and the same unsynchronized table is a matter of timing (as is which
+// of the two accesses the race detector prints first), so the signature of a listed construct is
+// decided by a rule about the construct, never by the incidental frame: the sweep cell that
+// isolates the construct + the class of manifestation. Everything else keeps the detailed
+// signature (class + top frame) and is never excused.
+
+func c17HasAnyPrefix(f string, prefixes ...string) bool {
+	for _, p := range prefixes {
+		if strings.HasPrefix(f, p) {
+			return true
+		}
+	}
+	return false
+}
+
+// functions that read or update a method object (slip.Method / Combination / Lambda) in place
+func c17MethodObjectFrame(f string) bool {
+	return c17HasAnyPrefix(f, "slip.(*Method).", "slip.(*Lambda).", "slip.(*Combination).",
+		"slip/pkg/generic.addMethodCaller", "slip/pkg/generic.defGenericMethod", "slip/pkg/generic.(*Defmethod).",
+		"slip/pkg/generic.(*RemoveMethod).", "slip/pkg/generic.DefCallerMethod")
+}
+
+// the evaluator's first evaluation of a form (it stores the compiled arguments back into the form)
+func c17FirstEvalFrame(f string) bool {
+	return c17HasAnyPrefix(f, "slip.(*Function).", "slip.EvalArg", "slip.CompileList", "slip.ListToFunc", "slip.CompileArgs")
+}
+
+func c17RaceSig(cell string, r c17Race) string {
+	var known []string
+	for _, f := range []string{r.Top, r.Prev} {
+		if f != "-" {
+			known = append(known, f)
+		}
+	}
+	all := func(pred func(string) bool) bool {
+		for _, f := range known {
+			if !pred(f) {
+				return false
+			}
+		}
+		return 0 < len(known)
+	}
+	switch {
+	case cell == "dispatch-race" && all(c17MethodObjectFrame):
+		return "race kind=method-object-updated-in-place"
+	case strings.HasPrefix(cell, "shared-") && all(c17FirstEvalFrame):
+		return "race kind=first-evaluation-rewrites-shared-code"
+	}
+	top := r.Top
+	if top == "-" {
+		top = r.Prev
+	}
+	return "race top=" + top
+}
+
+// c17DeathSig: in the define-* cells (a definer of functions / classes / flavors runs while other
+// routines evaluate) the package's function, class and flavor tables are unsynchronized Go maps:
+// the runtime's concurrent-map detection (any of its three messages, in whichever function
+// touched the map), a Go runtime error inside the map code, or a routine that does not find what
+// was just defined are manifestations of that one construct.
+func c17DeathSig(cell, death, frame string) string {
+	if strings.HasPrefix(cell, "define-") &&
+		(strings.HasPrefix(death, "concurrent-map-") || death == "panic-go-runtime-error" || death == "panic-slip-condition-in-routine") {
+		return "death=definer-tables-unsynchronized"
+	}
+	return fmt.Sprintf("death=%s frame=%s", death, frame)
 }
 
 func c17SplitDash(s string) []string {
@@ -2290,7 +2396,13 @@ func c17RunCase(c *lib.Ctx, cs *c17Case, bin string, procs int, yieldSeed uint64
 	var model map[string]string
 	var seq map[[2]int64]string
 	if p.Family == "tables" {
-		ref := c17Exec(bin, 1, p.source(true), yieldSeed, 60, 5*time.Minute, false)
+		ref := c17ExecSettled(bin, 1, p.source(true), yieldSeed, 60, 5*time.Minute, false)
+		if ref.Timeout {
+			// the sequential reference run of a small program did not finish even when run alone with
+			// four times the limit: the machine, not slip
+			fmt.Fprintln(os.Stderr, "c17: sequential reference run timed out twice (machinery)")
+			os.Exit(2)
+		}
 		if ref.Res == nil || !ref.Res.Ok {
 			return []c17Verdict{{"family=tables sequential-reference-failed", c17FirstLines(ref.Stderr, 5) + fmt.Sprint(ref.Res), "sequential run completes"}}
 		}
@@ -2311,7 +2423,7 @@ func c17RunCase(c *lib.Ctx, cs *c17Case, bin string, procs int, yieldSeed uint64
 	if cs.Race || p.Burst {
 		deadline = 6 * time.Minute
 	}
-	run := c17Exec(bin, procs, p.source(false), yieldSeed, 30, deadline, cs.Race)
+	run := c17ExecSettled(bin, procs, p.source(false), yieldSeed, 30, deadline, cs.Race)
 	return c17CheckRun(c, cs, run, model, seq)
 }
 
@@ -2435,7 +2547,24 @@ func runC17(c *lib.Ctx) {
 	results := make([]result, len(jobs))
 	var hangs, skipped atomic.Int32
 	var wg sync.WaitGroup
-	sem := make(chan struct{}, 4)
+	const slots = 4
+	sem := make(chan struct{}, slots)
+	var aloneMu sync.Mutex
+	c17Alone = func(f func()) {
+		// called from a job goroutine that holds one slot: give it back first (two jobs wanting to
+		// be alone must not wait for each other's slot), then take them all
+		<-sem
+		aloneMu.Lock()
+		for i := 0; i < slots; i++ {
+			sem <- struct{}{}
+		}
+		f()
+		for i := 0; i < slots; i++ {
+			<-sem
+		}
+		aloneMu.Unlock()
+		sem <- struct{}{}
+	}
 	for i := range jobs {
 		wg.Add(1)
 		sem <- struct{}{}
@@ -2463,6 +2592,7 @@ func runC17(c *lib.Ctx) {
 
 	validated, sampleNo := 0, 0
 	c.Ev.Coverage["skipped_after_hangs"] = int(skipped.Load())
+	c.Ev.Coverage["transient_outcomes_rerun_alone"] = int(c17Retried.Load())
 	for _, r := range results {
 		if r.d < 0 {
 			continue
